@@ -155,6 +155,10 @@ def prepare_scratch(scratch, modules, contracts, use_models, for_playback=False)
                             "use crate::verif_models::HashSet;"]
                     n += 1
                     continue
+                if re.match(r"^use std::collections::BTreeMap;\s*$", line):
+                    out += ["#[cfg(not(kani))]", line, "#[cfg(kani)]", "use crate::verif_models::BTreeMap;"]
+                    n += 1
+                    continue
                 m = re.match(r"^use std::collections::(HashMap|HashSet|\{[^}]*\});\s*$", line)
                 if m and "BTreeMap" not in line:
                     names = re.findall(r"HashMap|HashSet", line)
@@ -166,7 +170,7 @@ def prepare_scratch(scratch, modules, contracts, use_models, for_playback=False)
                 else:
                     out.append(line)
             if n == 0:
-                raise Undecided(f"lost anchor: no `use std::collections::HashMap/HashSet` line in src/{rel}")
+                raise Undecided(f"lost anchor: no `use std::collections::HashMap/HashSet/BTreeMap` line in src/{rel}")
             open(src, "w").write("\n".join(out))
             changes.append(f"src/{rel}: {n} `use std::collections::..` line(s) cfg-switched to crate::verif_models under cfg(kani)")
         with open(f"{dst}/src/lib.rs", "a") as f:
